@@ -440,4 +440,14 @@ def route (dns : Bool) (d : UDest) : Route :=
 /-- The datagram sent back to the application for the answer `resp` to the packet `d`. -/
 def replyDatagram (c : IPText) (d : UDest) (resp : Bytes) : Bytes := buildUDPHeader c d.host d.port resp
 
+/-! ### `SocksAdapter.handleSocksConnection` without a session
+
+The whole per-connection function: negotiate; then, no session being attached to the adapter, answer
+"general SOCKS server failure" and close (`defer clientConn.Close()` closes in every case). -/
+
+def adConnection (c : IPText) (cfg : AdCfg) (s : Src) : Bytes × Src :=
+  match (adNegotiate c cfg s).1.out with
+  | .ok _ => ((adNegotiate c cfg s).1.written ++ sendReply0 adapter.socksRepServerFailure, (adNegotiate c cfg s).2)
+  | .fail _ => ((adNegotiate c cfg s).1.written, (adNegotiate c cfg s).2)
+
 end Tunnox.C20
